@@ -608,7 +608,9 @@ def check(run: common.Run, drv: common.Driver, rng: random.Random, tier: str) ->
                 # documented prefixes end in `_`; such a prefix can only echo UPPER_SNAKE names: constants and enum members
                 uppers = [x.name for x in main.defs if isinstance(x, G.ConstDef) and "_" in x.name]
                 uppers += [n for x in main.defs if isinstance(x, G.EnumDef) for (n, _) in x.members if "_" in n]
-                cand = sorted({u.split("_")[0] + "_" for u in uppers if u.split("_")[0].isalpha()})
+                # (a one-letter prefix runs into a following capital: `X_` + GPSHeader = XGPSHeader, whose upper-snake form is the
+                #  converter's business, not the documented scheme's: at least two letters)
+                cand = sorted({u.split("_")[0] + "_" for u in uppers if u.split("_")[0].isalpha() and len(u.split("_")[0]) >= 2})
                 if cand:
                     pfx[id(main)] = rng.choice(cand)
                     chosen = [pfx[id(s)] for s in files]
